@@ -156,7 +156,7 @@ def decAll (d : Bytes) : List FKind → Nat → Out (List Val × Nat)
 /-- stable insertion sort by key (`sort_by(|a, b| a.window_block.cmp(..))` in `NSEC::write_to`) -/
 def insertByKey (x : Nat × Bytes) : List (Nat × Bytes) → List (Nat × Bytes)
   | [] => [x]
-  | y :: ys => if x.1 < y.1 then x :: y :: ys else y :: insertByKey x ys
+  | y :: ys => if x.1 ≤ y.1 then x :: y :: ys else y :: insertByKey x ys
 
 def sortByKey : List (Nat × Bytes) → List (Nat × Bytes)
   | [] => []
